@@ -1168,3 +1168,23 @@ Proof. eexists. vm_compute. reflexivity. Qed.
 
 Example ex_reservation_positive : (0 < c_resv (conf ex_pool))%N.
 Proof. by vm_compute. Qed.
+
+(** ** The conjunctions stated in Props/C07.v *)
+Lemma release_and_expiry :
+  (∀ s ids i, i ∈ ids → is_locked (release s ids) i = false) ∧
+  (∀ s ids i, i ∉ ids → is_locked (release s ids) i = is_locked s i) ∧
+  (∀ s ids i, (0 < c_resv (conf s))%N → i ∈ ids → is_locked (lock_utxos s ids) i = true) ∧
+  (∀ s ids i d, i ∈ ids → (c_resv (conf s) ≤ d)%N →
+     is_locked (step (lock_utxos s ids) (Tick d)).1 i = false).
+Proof. exact (conj release_frees (conj release_only_those (conj lock_reserves lock_expires))). Qed.
+
+Lemma views_agree s :
+  b_spendable (balance s) = sum_vals (spendable_outputs s) ∧
+  spendable_outputs s = eligible s ∧
+  (∀ u, u ∈ spendable_outputs s ↔ spendable s u) ∧
+  (vals_nonneg s → ∀ amount inputs v2, 0 < amount →
+     (is_Some (select_utxos s amount inputs false v2) ↔ amount ≤ b_spendable (balance s))).
+Proof.
+  split; [apply balance_spendable_outputs|]. split; [apply spendable_outputs_eligible|].
+  split; [apply elem_of_spendable_outputs|]. intros H a i v. by apply fundable_iff_balance.
+Qed.
